@@ -77,6 +77,7 @@ class Evaluator:
         self.inline_crates = set(inline_crates) | {crate}
         self.read_vars = []
         self.choices = {}
+        self.stores = []
 
     def oracle(self, key):
         if key not in self.choices:
@@ -175,7 +176,11 @@ class Evaluator:
                     raise Return(("none",))
                 if v[0] == "some":
                     return v[1]
-                raise Unrecognised("? on a non-Option")
+                if v[0] == "err":
+                    raise Return(v)
+                if v[0] == "ok":
+                    return v[1]
+                raise Unrecognised("? on a value that is neither Option nor Result")
             v = self.ev(e["scrut"], env)
             for a in e["arms"]:
                 env2 = Env(env) if isinstance(env, Env) else Env(_as_env(env))
@@ -186,6 +191,13 @@ class Evaluator:
             raise Unrecognised("no arm matched")
         if k == "ret":
             raise Return(self.ev(e["e"], env) if "e" in e else ("unit",))
+        if k == "field":
+            ps = hir.place_str(e)
+            if ps is not None and ps in env:
+                return env[ps]
+            raise Unrecognised(f"read of untracked place {ps}")
+        if k == "closure":
+            return ("closure", e, env)
         if k == "tuple" and not e["es"]:
             return ("unit",)
         if k == "tuple":
@@ -194,13 +206,20 @@ class Evaluator:
             return self.ev(e["e"], env)
         if k in ("assign",):
             l = hir.simp(e["l"])
-            if l.get("k") != "local":
-                raise Unrecognised("assignment to a non-local place")
             v = self.ev(e["r"], env)
-            if isinstance(env, Env):
-                env.assign(l["name"], v)
+            key = l["name"] if l.get("k") == "local" else hir.place_str(l)
+            if key is None:
+                raise Unrecognised("assignment to an untracked place")
+            if isinstance(env, Env) and key in env:
+                env.assign(key, v)
+            elif isinstance(env, Env):
+                root = env
+                while root.parent is not None:
+                    root = root.parent
+                dict.__setitem__(root, key, v)
             else:
-                env[l["name"]] = v
+                env[key] = v
+            self.stores.append((key, v))
             return ("unit",)
         if k == "call":
             return self.call(e, env)
@@ -223,6 +242,13 @@ class Evaluator:
         if k == "pbind":
             env[p["name"]] = v
             return True
+        if k == "ptuple":
+            ps = p.get("pats", [])
+            if not ps:
+                return v == ("unit",)
+            if v[0] != "tuple" or len(v) - 1 != len(ps):
+                raise Unrecognised("tuple pattern against a non-tuple value")
+            return all(self.bind(q, x, env) for q, x in zip(ps, v[1:]))
         if k in ("pts", "pstruct"):
             seg = hir.last_seg(hir.pat_path(p))
             sub = p["pats"][0] if k == "pts" and p["pats"] else (p["fields"][0]["p"] if k == "pstruct" and p["fields"] else None)
@@ -230,6 +256,10 @@ class Evaluator:
                 return v[0] == "some" and (sub is None or self.bind(sub, v[1], env))
             if seg == "None":
                 return v[0] == "none"
+            if seg == "Ok":
+                return v[0] == "ok" and (sub is None or self.bind(sub, v[1], env))
+            if seg == "Err":
+                return v[0] == "err" and (sub is None or self.bind(sub, v[1], env))
             raise Unrecognised(f"pattern {seg}")
         if k == "ppath":
             path = p["path"]
@@ -247,9 +277,29 @@ class Evaluator:
                 return v[0] == "str" and v[1] == p["v"]
         raise Unrecognised(f"pattern kind {k}")
 
+    def apply(self, clo, args):
+        if clo[0] != "closure":
+            raise Unrecognised("call of a non-closure value")
+        node, cenv = clo[1], clo[2]
+        env2 = Env(cenv) if isinstance(cenv, Env) else Env(_as_env(cenv))
+        for p, a in zip(node.get("params", []), args):
+            if not self.bind(p, a, env2):
+                raise Unrecognised("refutable closure parameter")
+        return self.ev(node["body"], env2)
+
     def call(self, e, env):
         if e.get("ctor", "").endswith("Option::Some"):
             return ("some", self.ev(e["args"][0], env))
+        if e.get("ctor", "").endswith("Result::Ok"):
+            return ("ok", self.ev(e["args"][0], env))
+        if e.get("ctor", "").endswith("Result::Err"):
+            return ("err", self.ev(e["args"][0], env))
+        if "f" in e and not (e.get("resolved") or e.get("callee")):
+            key = "call:" + str(hir.place_str(e["f"]))
+            if key in self.atoms:
+                a = self.atoms[key]
+                return a([self.ev(x, env) for x in e["args"]]) if callable(a) else a
+            raise Unrecognised(f"indirect call through {key}")
         cal = hir.callee(e)
         decl = hir.callee_decl(e)
         for name in (cal, decl):
@@ -281,6 +331,25 @@ class Evaluator:
                 return ("bool", o[0] == "some")
             if short == "is_none":
                 return ("bool", o[0] == "none")
+        if cal.startswith("core::result::Result::<T, E>::"):
+            r = args[0]
+            if r[0] in ("ok", "err"):
+                if short == "is_ok":
+                    return ("bool", r[0] == "ok")
+                if short == "is_err":
+                    return ("bool", r[0] == "err")
+                if short == "map_err":
+                    return ("err", self.apply(args[1], [r[1]])) if r[0] == "err" else r
+                if short == "map":
+                    return ("ok", self.apply(args[1], [r[1]])) if r[0] == "ok" else r
+                if short == "ok":
+                    return ("some", r[1]) if r[0] == "ok" else ("none",)
+                if short == "err":
+                    return ("some", r[1]) if r[0] == "err" else ("none",)
+                if short in ("and_then",):
+                    return self.apply(args[1], [r[1]]) if r[0] == "ok" else r
+                if short in ("or_else",):
+                    return self.apply(args[1], [r[1]]) if r[0] == "err" else r
         if short == "is_empty" and args and args[0][0] == "str":
             return ("bool", args[0][1] == "")
         crate = cal.split("::")[0]
